@@ -3,7 +3,10 @@ package main
 import (
 	"fmt"
 	"math"
+	"os"
 )
 
 func posInf() float64                         { return math.Inf(1) }
 func sscan(s string, x *float64) (int, error) { return fmt.Sscan(s, x) }
+
+func readFile(p string) ([]byte, error) { return os.ReadFile(p) }
